@@ -180,6 +180,11 @@ def run_case(iface, kind, chunks, disconnect_at, ops):
                 got.append(("ok", r))
                 if op == "body" and op in firsts and firsts[op] is not r:
                     v.append("repeated body access returned a different object")
+                if op == "form":
+                    fobj = req.form
+                    if "form_obj" in firsts and firsts["form_obj"] is not fobj:
+                        v.append("repeated form access returned a different object")
+                    firsts.setdefault("form_obj", fobj)
                 firsts.setdefault(op, r)
             except Exception as e:  # noqa
                 name = type(e).__name__
@@ -329,6 +334,9 @@ def bounded(tier, seed):
         seqs = [s for n in range(1, maxlen + 1) for s in itertools.product(ops_all, repeat=n)]
         if tier == "quick":
             seqs = [s for s in seqs if len(s) <= 2] + rng.sample([s for s in seqs if len(s) == 3], 40)
+        # always: an accessor, close(), the same accessor again - close() releases files, it does not forget results
+        seqs = list(seqs) + [s for s in (("form", "close", "form"), ("body", "close", "body"), ("json", "close", "json"),
+                                         ("form", "close", "form", "body"), ("form", "form", "close", "form")) if s not in seqs]
         for iface in ("asgi", "wsgi"):
             for chunks in chs:
                 for disc in [None] + (list(range(0, len(chunks))) if iface == "asgi" else []):
